@@ -9,14 +9,14 @@ import rasterio
 from rasterio.transform import from_origin
 
 
-def write_tif(path, arr, dtype="float32", descriptions=None, georef=False, nodata=None, origin=(500000.0, 4800000.0)):
+def write_tif(path, arr, dtype="float32", descriptions=None, georef=False, nodata=None, origin=(500000.0, 4800000.0), crs="EPSG:32631"):
     """arr: (rows, cols) or (bands, rows, cols)."""
     arr = np.asarray(arr)
     if arr.ndim == 2:
         arr = arr[None]
     kw = {}
     if georef:
-        kw["crs"] = "EPSG:32631"
+        kw["crs"] = crs
         kw["transform"] = from_origin(origin[0], origin[1], 0.5, 0.5)
     if nodata is not None:
         kw["nodata"] = nodata
